@@ -111,6 +111,8 @@ fn dense_c12(thorough: bool, _seed: u64) -> Vec<Case> {
         Source::RangeIter { start: 0 },
         Source::ClonedSlice,
         Source::ParCloned,
+        Source::NestedCloned,
+        Source::NestedCopied { start: 2 },
         Source::Coll { kind: Coll::VecDeque, by_ref: false },
         Source::Coll { kind: Coll::BTreeSet, by_ref: true },
         Source::Coll { kind: Coll::HashSet, by_ref: false },
@@ -517,9 +519,24 @@ pub fn c15() -> PropDef {
                 TermClass::CollectIntoPrefixed,
             ];
         }),
-        sched: None,
-        quick: (2000, 0),
-        thorough: (30000, 0),
+        sched: mk_sched(|c| {
+            // the adaptive part of the configuration (spawn decisions, Min growth) depends on how far the workers are when
+            // the spawner looks: put that under generated schedules too, with enough threads for late spawns
+            c.threads = ThreadsCfg::ParWide;
+            c.chunk = ChunkCfg::Any { big: 24 };
+            c.pos = ParamPos::OnSource;
+            c.src = SrcClass::Deep;
+            c.max_len = 64;
+            c.terms = vec![
+                TermClass::Collect,
+                TermClass::CollectX,
+                TermClass::Count,
+                TermClass::ReduceFamily,
+                TermClass::ShortCircuit,
+            ];
+        }),
+        quick: (2000, 400),
+        thorough: (30000, 5000),
         dense: dense_c15,
         check: check_c15,
         adjust: adjust_c15,
